@@ -81,9 +81,9 @@ theorem msEncode_streams (s : MsEncSt) (f b : Int) (o : MsOracle) (h : msEncodeE
   unfold msEncode; rw [h]; exact ⟨rfl, rfl, rfl⟩
 
 /-- **`MsInv` is kept by a multistream encode call** whose streams' encode calls stay inside the
-    monitored ranges and which leaves no stream ahead of the first one (`msEncodeContract`, checked
-    after every call by suites `ctl-rand` / `ctl-msstarve`): every per-stream setting the
-    multistream layer writes is legal, the streams keep one application and their channel layout. -/
+    monitored ranges (`msEncodeContract`, checked after every call by suites `ctl-rand` /
+    `ctl-msstarve`): every per-stream setting the multistream layer writes is legal and the streams
+    keep their channel layout (and their application). -/
 theorem msEncode_inv {s : MsEncSt} (hi : MsInv s) (f b : Int) (o : MsOracle) (hc : msEncodeContract s f b o = true) :
     MsInv (msEncode s f b o) := by
   cases hearly : msEncodeEarly s f b with
@@ -93,7 +93,7 @@ theorem msEncode_inv {s : MsEncSt} (hi : MsInv s) (f b : Int) (o : MsOracle) (hc
     unfold msEncodeContract at hc
     rw [hearly] at hc
     simp only [Bool.and_eq_true, List.all_eq_true, List.mem_range] at hc
-    obtain ⟨⟨hobs, hfirst⟩, _⟩ := hc
+    obtain ⟨hobs, _⟩ := hc
     -- per-stream facts
     have hper : ∀ (i : Nat) (e : EncSt), s.streams[i]? = some e →
         EncInv (msStreamAfter s o i e) ∧ (msStreamAfter s o i e).application = e.application ∧
@@ -126,24 +126,10 @@ theorem msEncode_inv {s : MsEncSt} (hi : MsInv s) (f b : Int) (o : MsOracle) (hc
       rw [hst] at he'
       obtain ⟨i, hlt, rfl⟩ := List.mem_mapIdx.mp he'
       exact ⟨i, s.streams[i], List.getElem?_eq_getElem hlt, rfl⟩
-    refine ⟨?_, ?_, ?_, ?_⟩
+    refine ⟨?_, ?_⟩
     · intro e' he'
       obtain ⟨i, e, hie, rfl⟩ := hmemAfter e' he'
       exact (hper i e hie).1
-    · intro a ha c hc'
-      obtain ⟨i, e, hie, rfl⟩ := hmemAfter a ha
-      obtain ⟨j, e2, hje, rfl⟩ := hmemAfter c hc'
-      rw [(hper i e hie).2.1, (hper j e2 hje).2.1]
-      exact hi.app e (List.mem_of_getElem? hie) e2 (List.mem_of_getElem? hje)
-    · intro e0 es hs e he hf
-      rw [hs] at hfirst
-      simp only [Bool.or_eq_true, Bool.not_eq_true', List.all_eq_true] at hfirst
-      rcases hfirst with h | h
-      · exact h
-      · rw [hs] at he
-        rcases List.mem_cons.mp he with rfl | he
-        · exact hf
-        · have := h e he; rw [this] at hf; cases hf
     · rw [hcp, hns]
       rcases hi.layout with h | h
       · exact Or.inl h
